@@ -61,6 +61,9 @@ func c17AppCheck(x *vsched.Exec, r vsched.Result) []vsched.Finding {
 	if s, ok := x.V["infra"].(string); ok {
 		return []vsched.Finding{{Sig: "INFRA:setup", What: s}}
 	}
+	if f := noProgress(r); f != nil {
+		return f
+	}
 	if r.Truncated || r.Diverged != "" || len(r.Panics) > 0 || r.Deadlock != "" {
 		return nil
 	}
